@@ -240,9 +240,10 @@ def main(run, tier):
     pathobl.add(run, tier)
     run.trust('close() does not raise (the statement lists read, parse, unparse and write failures)',
               'external calls either raise or return (no other effect on the streams than recorded by the ghost state)')
-    run.assume('the content part (output = printer text + link; link designates the map of the lower-level API) is bounded only: '
-               'sourcemap.write_sourcemap has no deductive contract; verify_write_sourcemap_args is under contract for which path is '
-               'made relative to which, utils.normrelpath (os.path string functions) is bounded only', 'io.write with a list of nodes: lists of <= 3 entries (Node / not a Node patterns) under contract: the chunks of every Node entry, in order, chained and written')
+    run.assume('the content part: sourcemap.write_sourcemap (what is written to which stream, the link line), verify_write_sourcemap_args '
+               '(which path is made relative to which) and the wiring of utils.normrelpath are under contract (vf/checks/pathobl.py); that '
+               'the link designates the map of the lower-level API end to end, and the os.path string functions inside normrelpath, are '
+               'bounded only', 'io.write with a list of nodes: lists of <= 3 entries (Node / not a Node patterns) under contract: the chunks of every Node entry, in order, chained and written')
 
 
 def replay(data):
